@@ -19,6 +19,8 @@ pub struct Out {
     pub progress: std::path::PathBuf,
     pub cases: usize,
     pub fixed_fuel: Option<String>,
+    /// Extra per-case lines written to `<suite>.side` (e.g. hashes compared across processes).
+    pub side: Vec<String>,
 }
 
 impl Out {
@@ -54,6 +56,7 @@ pub fn run_cli(args: Vec<String>) {
         progress: outdir.join(format!("{suite}.progress")),
         cases: 0,
         fixed_fuel: None,
+        side: Vec::new(),
     };
     let mut rng = util::Rng::new(seed);
     if is_replay {
@@ -77,6 +80,9 @@ pub fn run_cli(args: Vec<String>) {
         "bcwf" => suites::bcwf(&mut rng, count, &mut out),
         "divgen" => suites::divgen(&mut rng, count, &mut out),
         "roam" => suites::roam(&mut rng, count, &mut out),
+        "unsafe" => suites::unsafe_mode(&mut rng, count, &mut out),
+        "c13" => suites::c13(&mut rng, count, &mut out),
+        "jitgen" => suites::jitgen(&mut rng, count, &mut out),
         "irecho" => suites::irecho(&mut rng, count, &mut out),
         "sv" => dsuites::smallvec(&mut rng, count, &mut out),
         "expr" => dsuites::expr(&mut rng, count, &mut out),
@@ -88,6 +94,9 @@ pub fn run_cli(args: Vec<String>) {
     }
     out.req.flush().unwrap();
     out.imp.flush().unwrap();
+    if !out.side.is_empty() {
+        std::fs::write(outdir.join(format!("{suite}.side")), out.side.join("\n") + "\n").unwrap();
+    }
     let stats: Vec<String> = out
         .stats
         .iter()
